@@ -611,6 +611,9 @@ func (un *Unit) lockHeap(lv *LVal) (string, Term) {
 func (e *Engine) special(f *Frame, fn *ssa.Function, args []Val, st *State, pos token.Pos) (Val, bool) {
 	name := fn.String()
 	un := f.un
+	if name == "sort.SliceStable" || name == "sort.Slice" {
+		return e.specialSort(f, args, st), true
+	}
 	if strings.HasPrefix(name, "(*sync.Mutex).") || strings.HasPrefix(name, "(*sync.RWMutex).") {
 		m := fn.Name()
 		if m != "Lock" && m != "Unlock" && m != "RLock" && m != "RUnlock" {
@@ -660,4 +663,51 @@ func bigLE(a, b string) bool {
 		return len(a) < len(b)
 	}
 	return a <= b
+}
+
+// specialSort models sort.Slice / sort.SliceStable: the slice is permuted (bijection given by
+// fresh functions) so that afterwards no later element is `less` than an earlier one; nothing
+// outside the slice changes. Trusted (listed in evidence as A-EXT sort).
+func (e *Engine) specialSort(f *Frame, args []Val, st *State) Val {
+	un := f.un
+	u := un.u
+	x := args[0]
+	if x.Dyn == nil || args[1].Clo == nil {
+		f.fail("sort.Slice: slice type or comparison closure not statically known")
+	}
+	sl, ok := x.Dyn.Underlying().(*types.Slice)
+	if !ok {
+		f.fail("sort.Slice of non-slice")
+	}
+	un.note("sort.Slice/SliceStable: trusted model (result is a permutation of the slice, ordered by the given less; elements outside untouched)")
+	s, okp := un.ifacePay[x.T.S]
+	if !okp {
+		s = un.define("sorted_slice", u.Unbox(IVal(x.T), SSlice))
+	}
+	es := u.SortOf(sl.Elem())
+	hn := un.elemHeap(sl.Elem())
+	h := un.H(st, hn, ArrSort(SInt, ArrSort(SInt, es)))
+	oldRow := un.define("row", Select(h, SBase(s)))
+	newRow := un.fresh("sortedrow", ArrSort(SInt, es))
+	un.nfresh++
+	perm := fmt.Sprintf("perm!%d", un.nfresh)
+	inv := fmt.Sprintf("perminv!%d", un.nfresh)
+	un.decls = append(un.decls, fmt.Sprintf("(declare-fun %s (Int) Int)", perm), fmt.Sprintf("(declare-fun %s (Int) Int)", inv))
+	off, ln := SOff(s), SLen(s)
+	hi := un.define("hi", Add(off, ln))
+	k := Term{"k", SInt}
+	inR := func(t Term) Term { return And(Le(off, t), Lt(t, hi)) }
+	pk := mk(SInt, perm, k)
+	ik := mk(SInt, inv, k)
+	un.assume(st, Forall([]Term{k}, Implies(Not(inR(k)), Eq(Select(newRow, k), Select(oldRow, k))), Select(newRow, k)))
+	un.assume(st, Forall([]Term{k}, Implies(inR(k), And(inR(pk), Eq(Select(newRow, k), Select(oldRow, pk)))), Select(newRow, k)))
+	un.assume(st, Forall([]Term{k}, Implies(inR(k), And(inR(ik), Eq(mk(SInt, perm, ik), k), Eq(Select(newRow, ik), Select(oldRow, k)))), Select(oldRow, k)))
+	un.setH(st, hn, Store(h, SBase(s), newRow))
+	// ordering, evaluated on the new heap through the closure
+	i, j := Term{"i!srt", SInt}, Term{"j!srt", SInt}
+	un.inQuant++
+	lessJI := f.applyPure(args[1].Clo, []Val{{T: Sub(j, off), Go: types.Typ[types.Int]}, {T: Sub(i, off), Go: types.Typ[types.Int]}}, st)
+	un.inQuant--
+	un.assume(st, Forall([]Term{i, j}, Implies(And(Le(off, i), Lt(i, j), Lt(j, hi)), Not(lessJI.T)), Select(newRow, i), Select(newRow, j)))
+	return Val{}
 }
